@@ -367,7 +367,7 @@ func runWorker(bin string, job *Job, dir string, memLimitMB int, timeout time.Du
 	cmd := exec.Command("sh", "-c", sh)
 	cmd.Dir = dir
 	cmd.Env = append(os.Environ(), "VERIF_JOB="+jf, "GODEBUG=asynctimerchan=0", "GOMAXPROCS=2",
-		"GORACE=halt_on_error=0 log_path="+filepath.Join(dir, fmt.Sprintf("race.%d", job.Worker))+" history_size=2")
+		"GORACE=halt_on_error=0 log_path="+filepath.Join(dir, fmt.Sprintf("race.%d", job.Worker))+" history_size=2 exitcode=0")
 	if v := os.Getenv("VERIF_GOMAXPROCS"); v != "" {
 		cmd.Env = append(cmd.Env, "GOMAXPROCS="+v)
 	}
@@ -571,7 +571,7 @@ func aggregate(id, tier string, seed int64, pc *PropCfg, bo *buildOut, results [
 		}
 		// exit status 1 with a complete result file is the Go test framework
 		// flagging "race detected during execution of test": not a worker death
-		if (wr.ExitCode != 0 && !(wr.ExitCode == 1 && wr.Raw != nil && r.RaceBuild)) || wr.Raw == nil {
+		if (wr.ExitCode != 0 && !((wr.ExitCode == 1 || wr.ExitCode == 66) && wr.Raw != nil && r.RaceBuild)) || wr.Raw == nil {
 			// a worker died: attribute
 			msg := fmt.Sprintf("worker %d exit=%d signal=%s status=[%s]", i, wr.ExitCode, wr.Signal, wr.Status)
 			if wr.Hang != "" {
